@@ -47,6 +47,14 @@ DISPATCH_RUN = dict(
     thorough=["-n", "4000", "-sched", "8", "-sweep", "60"],
     search=["-n", "1500", "-sched", "5", "-sweep", "20"],
 )
+# the same protocol on two processors: whatever the library sizes by the number of CPUs (a pool, a
+# semaphore) is at its smallest
+DISPATCH_RUN_2CPU = dict(
+    model="dispatch", sub="dispatch", driver="dispatch", env={"GOMAXPROCS": "2"},
+    quick=["-n", "60", "-sched", "2", "-sweep", "1"],
+    thorough=["-n", "1000", "-sched", "4", "-sweep", "10"],
+    search=["-n", "300", "-sched", "3", "-sweep", "4"],
+)
 DISPATCH_ASSUME = [
     "Go's select, unbuffered channels, sync.WaitGroup and goroutine creation behave as modelled (labels of Dispatch.fire)",
     "sync.Map.Range visits each present key once (no concurrent registry change during the Send under test)",
@@ -133,7 +141,7 @@ PROPS = {
         module="Evl.Props.C03",
         theorems=["Evl.C03.progress", "Evl.C03.prompt", "Evl.C03.measure_decreases", "Evl.C03.terminates", "Evl.C03.clean",
                   "Evl.C03.no_send_on_closed", "Evl.C03.closed_is_final", "Evl.C03.done_matches_add", "Evl.C03.add_is_safe", "Evl.C03.send_holds_no_lock", "Evl.C03.on_source"],
-        runs=[DISPATCH_RUN], oracle_prefixes=["C03"], models=["M2 Dispatch"],
+        runs=[DISPATCH_RUN, DISPATCH_RUN_2CPU], oracle_prefixes=["C03"], models=["M2 Dispatch"],
         trusted_base=TB_COMMON,
         assumptions=DISPATCH_ASSUME + ["partial: wall-clock promptness is measured by the harness (Send must return within 0.5 s of a cancel while nodes are held) but not part of any theorem; `prompt` is an enabledness statement"],
         rule=DISPATCH_RULE,
